@@ -55,14 +55,19 @@ pub fn any_full_board() -> (Bitboard, [u64; 7], [u64; 7]) {
     sym::assume(turn < 2);
     let full = sym::u32();
     sym::assume(full >= 1 && full < 100000);
-    let bb = Bitboard { white: verif::player_state(w, sym::bool(), sym::bool()), black: verif::player_state(b, sym::bool(), sym::bool()), turn, en_passant_square_shift: 0, fullmove_clock: full, halfmove_clock: 0 };
+    // any e.p. value: neither check detection nor the terminal evaluation may depend on it
+    let ep = sym::u32();
+    sym::assume(ep < 64);
+    let bb = Bitboard { white: verif::player_state(w, sym::bool(), sym::bool()), black: verif::player_state(b, sym::bool(), sym::bool()), turn, en_passant_square_shift: ep, fullmove_clock: full, halfmove_clock: 0 };
     #[cfg(not(kani))]
     sym::note("position", crate::native_util::describe(&bb));
     (bb, w, b)
 }
 
-/// C05.1: is_in_check / is_current_in_check / is_valid on every board with one king per side.
-pub fn c05_check_full() {
+/// C05.1: is_in_check / is_current_in_check / is_valid on every board with one king per side.  `side`: 0 = the
+/// assertions about the white king, 1 = about the black king, 2 = all four (each API call is an assertion
+/// about one king: is_current_in_check about the mover's, is_valid about the other's).
+pub fn c05_check_full(side: u8) {
     let (bb, w, b) = any_full_board();
     let occ = all7(&w) | all7(&b);
     let white_in_check = ref_in_check(w[6], occ, &b, 0);
@@ -70,8 +75,20 @@ pub fn c05_check_full() {
     cov!(white_in_check && black_in_check, "both kings attacked");
     cov!(occ.count_ones() >= 24, "24 or more pieces");
     cov!(!white_in_check && !black_in_check, "no king attacked");
-    assert!(bb.is_in_check(&Color::WHITE) == white_in_check, "C05.1 is_in_check(WHITE) disagrees with the rules");
-    assert!(bb.is_in_check(&Color::BLACK) == black_in_check, "C05.1 is_in_check(BLACK) disagrees with the rules");
-    assert!(bb.is_current_in_check() == (if bb.turn == 0 { white_in_check } else { black_in_check }), "C05.1 is_current_in_check disagrees with the rules");
-    assert!(bb.is_valid() == !(if bb.turn == 0 { black_in_check } else { white_in_check }), "C05.1 is_valid disagrees with the rules");
+    if side == 0 || side == 2 {
+        assert!(bb.is_in_check(&Color::WHITE) == white_in_check, "C05.1 is_in_check(WHITE) disagrees with the rules");
+        if bb.turn == 0 {
+            assert!(bb.is_current_in_check() == white_in_check, "C05.1 is_current_in_check disagrees with the rules (white to move)");
+        } else {
+            assert!(bb.is_valid() == !white_in_check, "C05.1 is_valid disagrees with the rules (black to move)");
+        }
+    }
+    if side == 1 || side == 2 {
+        assert!(bb.is_in_check(&Color::BLACK) == black_in_check, "C05.1 is_in_check(BLACK) disagrees with the rules");
+        if bb.turn == 1 {
+            assert!(bb.is_current_in_check() == black_in_check, "C05.1 is_current_in_check disagrees with the rules (black to move)");
+        } else {
+            assert!(bb.is_valid() == !black_in_check, "C05.1 is_valid disagrees with the rules (white to move)");
+        }
+    }
 }
